@@ -63,6 +63,17 @@ fn opts() -> RunOpts {
 }
 
 pub fn replay(v: &serde_json::Value) -> Result<(), String> {
+    if v.get("stress").is_some() {
+        let c: crate::stress::StressCase = serde_json::from_value(v["stress"].clone()).map_err(|e| e.to_string())?;
+        drop_privileges();
+        let scratch = Scratch::new("c01s");
+        for _ in 0..10 {
+            if let Some((s, d)) = crate::stress::run(&scratch.path, &c).content_violation {
+                return Err(format!("{}: {}", s, d));
+            }
+        }
+        return Ok(());
+    }
     let c: ConcCase = serde_json::from_value(v["case"].clone()).map_err(|e| e.to_string())?;
     drop_privileges();
     let scratch = Scratch::new("c01r");
@@ -136,5 +147,6 @@ pub fn run(ctx: &Ctx) -> Report {
             rep.violation(&sig, detail, json!({"case": case}));
         }
     }
+    crate::stress::phase(ctx, "C01", &mut rep);
     rep
 }
